@@ -76,3 +76,17 @@ func TestF6_CustomCtxUnknownMethod(t *testing.T) {
 		t.Fatalf("status %d, want 501", rc.Response.StatusCode())
 	}
 }
+
+// F17 (C01): addRoute appended merged handlers into a backing array shared by the per-method copies of one registration.
+func TestF17_SharedHandlersBackingArray(t *testing.T) {
+	app := fiber.New()
+	nop := func(c fiber.Ctx) error { return c.Next() }
+	app.All("/x", nop, nop, nop, nop, nop) // 5 handlers -> the variadic slice has spare capacity, shared by all method copies
+	var ran string
+	app.Get("/x", func(c fiber.Ctx) error { ran = "get"; return nil })
+	app.Post("/x", func(c fiber.Ctx) error { ran = "post"; return nil })
+	do(app, "GET", "/x")
+	if ran != "get" {
+		t.Fatalf("GET /x ran the %q handler: the handler merged into the GET route was overwritten by the POST registration", ran)
+	}
+}
